@@ -150,8 +150,46 @@ def fuzz_decode_case(ctx, case):
                       'data': bytes(b[1:])})
 
 
+def interleaved_case(ctx, case):
+    """Two codec calls whose executions overlap (as two threads encoding or
+    decoding on different sockets do): call A is suspended at its k-th line
+    and call B runs to completion in between.  Each must still produce
+    exactly what it produces alone.  case {a: [op, type, n], b: [op, type,
+    n], k} with op in 'send'|'read'|'size'."""
+    from vlib.budget import run_interleaved
+
+    def make(spec):
+        op, tn, n = spec
+        T = _types()[tn][0]
+        want = wire.varint(n)
+        if op == 'send':
+            sink = Sink()
+            return (lambda: T.send(n, sink)), (lambda r: sink.value), want
+        if op == 'read':
+            st_ = CountingStream(want + b'\xAA')
+            return (lambda: T.read(st_)), (lambda r: r), n
+        return (lambda: T.size(n)), (lambda r: r), len(want)
+    ctx.ev()
+    fa, ga, wa = make(case['a'])
+    fb, gb, wb = make(case['b'])
+    try:
+        ra, rb, ran = run_interleaved(fa, fb, case['k'])
+    except Exception as e:
+        ctx.fail('interleaved', 'S1-overlapping-calls-raise', case, exc=e)
+        return
+    if not ran:
+        ctx.label('interleave_point_beyond_call')
+        return
+    if ga(ra) != wa or gb(rb) != wb:
+        ctx.fail('interleaved', 'S1-overlapping-calls', case,
+                 (repr(ga(ra)), repr(gb(rb))), (repr(wa), repr(wb)))
+        return
+    ctx.nt('il', repr(case))
+
+
 COMPONENTS = {'decode': decode_case, 'encode': encode_case,
-              'fuzz_decode': fuzz_decode_case}
+              'fuzz_decode': fuzz_decode_case,
+              'interleaved': interleaved_case}
 
 
 # ------------------------------------------------------------------- tasks
@@ -247,9 +285,29 @@ def t_fuzz(ctx, runs):
         b'\x00\x80\x80\x80\x80\x80\x80', b'\x01' + b'\xff' * 11])
 
 
+def t_interleaved(ctx):
+    vals = [0, 1, 127, 128, 300, 16383, 16384, 2 ** 31 - 1]
+    specs = [(op, tn, n) for op in ('send', 'read', 'size')
+             for tn in ('VarInt', 'VarLong') for n in vals]
+    k_ = 0
+    for a in specs:
+        for b in specs[(k_ % 5)::5]:
+            k_ += 1
+            for k in range(1, 40):
+                before = ctx.labels.get('interleave_point_beyond_call', 0)
+                interleaved_case(ctx, {'a': list(a), 'b': list(b), 'k': k})
+                if ctx.labels.get('interleave_point_beyond_call', 0) > before:
+                    break
+    ctx.sample({'a': ['send', 'VarInt', 300], 'b': ['send', 'VarLong', 5],
+                'k': 4}, 'interleaved')
+    ctx.exhaustive_done('every line of every VarInt/VarLong send/read/size '
+                        'call on 8 boundary values as the suspension point, '
+                        'against a rotating fifth of the same calls')
+
+
 def tasks(tier):
     q = tier == 'quick'
-    tl = []
+    tl = [('interleaved', t_interleaved, {})]
     if not q:
         tl.append(('fuzz_empty_corpus', t_fuzz, dict(runs=1500000)))
     maxlen = 2 if q else 3
